@@ -67,8 +67,9 @@ func msgVectors(L int, rng *mrand.Rand) [][][]byte {
 // psDKG runs a PS key generation: directly wired, or through real schemes on the simulated network.
 func psDKG(ids []uint16, t, L int, rng *mrand.Rand, orch string, polIdx int) (map[uint16][]byte, string) {
 	sch := scheme{Name: "ps", MsgLen: L}
-	if orch == "" {
+	if orch == "" || orch == "direct-no-fifo" {
 		d := newDrun(sch, ids, t, rng)
+		d.noFIFO = orch == "direct-no-fifo"
 		ctx, cancel := context.WithTimeout(context.Background(), 120*time.Second)
 		ok := d.run(ctx, cancel, ids, 120*time.Second)
 		if len(d.panics) > 0 {
@@ -124,7 +125,7 @@ func psDKG(ids []uint16, t, L int, rng *mrand.Rand, orch string, polIdx int) (ma
 }
 
 func unitC08(e common.Env, p *common.Part) {
-	p.Rule = "PS key generation (directly wired with PRNG delivery order; every third configuration through real Loud/Silent schemes) for 2<=t<=n<=5 (thorough 6), party identifier sets 1..n, {1,2,4,..}, {10,20,..} and PRNG 16-bit, message length L=1..4, vectors {all entries empty, all equal, random, one 64 KiB entry}; for EVERY signer subset of size >= t, in PRNG order: TPS.Sign of the blinded request from the stored share, Prover.UnBlind, ProveKnowledgeOfSignature, Verifier.Verify must all succeed, and all parties report identical public material; distinct key = (n, t, L, id set, vector, subset); non-trivial when the proof was built and verified"
+	p.Rule = "PS key generation (directly wired with PRNG delivery order, per-link FIFO or - every sixth configuration - any queued message next; every third configuration through real Loud/Silent schemes) for 2<=t<=n<=5 (thorough 6), party identifier sets 1..n, {1,2,4,..}, {10,20,..} and PRNG 16-bit, message length L=1..4, vectors {all entries empty, all equal, random, one 64 KiB entry}; for EVERY signer subset of size >= t, in PRNG order: TPS.Sign of the blinded request from the stored share, Prover.UnBlind, ProveKnowledgeOfSignature, Verifier.Verify must all succeed, and all parties report identical public material; distinct key = (n, t, L, id set, vector, subset); non-trivial when the proof was built and verified"
 	type cfg struct {
 		n, t, L int
 		ids     []uint16
@@ -140,6 +141,9 @@ func unitC08(e common.Env, p *common.Part) {
 					continue
 				}
 				orch := ""
+				if k%3 == 0 && k%2 == 1 {
+					orch = "direct-no-fifo"
+				}
 				if k%3 == 1 {
 					orch = "loud"
 				} else if k%6 == 5 {
